@@ -237,7 +237,10 @@ pub fn random(runner: &mut Runner, bin: &Path, work: &Path, seed: u64, n: u64) {
             }
             "gap" if nfiles >= 2 => {
                 let k = rng.gen_range(1..nfiles);
-                let shift = rng.gen_range(2..100);
+                // total distance to the predecessor's end exactly 2 (the first refused value), 3, or more
+                let have = files[k].init - files[k - 1].fin;
+                let want = *[2u32, 2, 3, 60, 100_000].choose(&mut rng).unwrap();
+                let shift = want.saturating_sub(have);
                 for f in files[k..].iter_mut() {
                     f.init += shift;
                     f.fin += shift;
